@@ -263,3 +263,52 @@ func sortedKeys[V any](m map[string]V) []string {
 	sort.Strings(out)
 	return out
 }
+
+// typeAssertsOnForwarded collects the type assertions applied to the value of parameter prm of fn, following the value
+// when it is handed unchanged to functions of the same package (the parameter of a helper the value is forwarded to is
+// the same document). Depth-bounded.
+func typeAssertsOnForwarded(fn *ssa.Function, prm *ssa.Parameter, depth int) []*ssa.TypeAssert {
+	var out []*ssa.TypeAssert
+	if depth > 4 || prm == nil {
+		return out
+	}
+	for _, ref := range nonDebugRefs(prm) {
+		switch x := ref.(type) {
+		case *ssa.TypeAssert:
+			out = append(out, x)
+		case *ssa.Call:
+			callee := x.Call.StaticCallee()
+			if callee == nil || !IsModuleFunc(callee) || callee.Blocks == nil || RelPkg(callee) != RelPkg(fn) {
+				continue
+			}
+			for i, a := range x.Call.Args {
+				if a == ssa.Value(prm) && i < len(callee.Params) {
+					out = append(out, typeAssertsOnForwarded(callee, callee.Params[i], depth+1)...)
+				}
+			}
+		}
+	}
+	return out
+}
+
+// samePkgReach: fn and the functions of its own package reachable from it through static calls.
+func samePkgReach(p *Prog, fn *ssa.Function) []*ssa.Function {
+	seen := map[*ssa.Function]bool{fn: true}
+	work := []*ssa.Function{fn}
+	for len(work) > 0 {
+		f := work[0]
+		work = work[1:]
+		for _, c := range p.ModuleCallees(f) {
+			if !seen[c] && RelPkg(c) == RelPkg(fn) && c.Blocks != nil {
+				seen[c] = true
+				work = append(work, c)
+			}
+		}
+	}
+	var out []*ssa.Function
+	for f := range seen {
+		out = append(out, f)
+	}
+	sort.Slice(out, func(i, j int) bool { return FuncKey(out[i]) < FuncKey(out[j]) })
+	return out
+}
